@@ -1,22 +1,160 @@
 (** * C03 — no request can crash, hang or produce an unserialisable response.
+    Only statements closed by [exact] and their [Print Assumptions].
 
-    Full statement (properties.jsonl): for every byte string q, JSON variables v, operation name n,
+    FULL STATEMENT (properties.jsonl): for every byte string q, JSON variables v, operation name n,
     schema S the library accepts and resolvers returning ordinary values or errors,
-    ParseAndValidate / Execute / Subscribe return normally, the response serialises to JSON and
-    carries errors whenever it carries no (or null) data.
+    ParseAndValidate / Execute / Subscribe return normally (no panic, no unbounded recursion, no
+    endless loop), the response serialises to JSON and carries errors whenever it carries no (or
+    null) data.
 
-    What is closed HERE is the glue of graphql.go over the verdicts of its stages (…_partial in
-    the sense of BUILDER_GUIDE: the stages' own totality theorems are proved over their own models
-    in the files of C07 (scanner makes progress on every byte string), C06 (parser total with the
-    stated fuel, recursion counter balanced), C04 (validator raises no panic), C05 (argument
-    coercion raises no panic, non-null positions never see null) and C01 (executor total on
-    validated documents; nil data only with an error; leaf coercion admits only serialisable
-    values); they are re-checked by those properties' own checks.  The composition across the
-    differently-typed stage models is tied by the hostile end-to-end stream of this property's
-    check, not by a theorem. *)
+    WHAT IS PROVED HERE.  [pipeline_model VS F ES bs opname VE W] (Pipe/Compose.v) is ONE executable
+    model of graphql.Execute on the BYTES [bs] of the request text: the parser model of C06 driven
+    by the scanner model of C07 ([FrontEnd.parse_document_bytes]), the glue of
+    graphql.ParseAndValidate, the validator model of C04 ([validate_model repaired]) on the
+    structurally converted tree ([Convert.vld_of_syn]), GetOperation and the synchronous executor
+    model of C01 ([ExecModel.run fixed] with [default_fuel]) on [Convert.exe_of_syn], the glue of
+    graphql.Execute.  [VS] / [ES]: the schema in the validator's / the executor's encoding
+    (the check verifies on every case that they describe one schema); [F] the enabled features;
+    [VE]: the verdict of CoerceVariableValues for the selected operation ([None]: it failed;
+    [Some E]: the coerced variables as far as @skip/@include read them) — the coercion itself is
+    modelled and proved total in C05 and is an INPUT here; [W]: the resolver-outcome world (what
+    every resolver returns for every object value: nil, typed nil, leaf values of every Go kind
+    incl. NaN / Inf, slices, object values, errors).
+    Quantification: ALL byte strings, operation names, variable verdicts, worlds, schemas in both
+    encodings — the only hypothesis is [type_names_okb ES] (no zero byte in a type name, which
+    schema.New guarantees).
+
+      C03_front_never_panics      ParseAndValidate from bytes: never Panic / OutOfFuel, any schema
+      C03_pipeline_never_panics   the whole pipeline never returns Panic / OutOfFuel
+      C03_pipeline_total          ... and returns a response, or reports a broken stage contract
+      C03_response_serialisable   every number in the data of a response has a JSON form
+      C03_data_or_errors          no (or null) data => at least one error
+      C03_parsed_positions_distinct   the parser's half of C01's hypothesis, across the conversion
+
+    WHAT IS PARTIAL, and why.
+    - C01's totality theorem needs [doc_ok] ("what validation guarantees", as an execution over
+      types).  That the validator model establishes it is NOT proved (C04 has not proved
+      [validate_ok_doc_ok], see the header of Properties/C01.v).  The composed model therefore
+      EVALUATES [doc_ok] (and the size half of [doc_positions_okb]) and answers
+      [PContractBroken] when it fails; the totality theorems hold unconditionally because of that
+      check, and the correspondence check reports [PContractBroken] as an oracle failure on every
+      case (so the gap is tested on every run, not assumed).  The conditional statement is
+      [C03_validate_establishes_doc_ok_partial]: IF validation establishes [doc_ok]
+      ([validate_establishes_doc_ok], the open obligation, spelled out below) and the text is
+      below 2^24 lines / 2^32 columns, THEN every request gets a response.
+    - [doc_ok] contains C01's hypothesis that every @skip/@include condition has a boolean value.
+      A validated request can violate it (a nullable Boolean variable with a default, given null:
+      the directive's argument cannot be coerced, the selection is left out with an error).  Such
+      requests get [PUnevaluable r]: the executor model's answer, compared by the check, with no
+      theorem about it ([request_evaluable] is the hypothesis of [C03_pipeline_total]).
+    - Outside the composition: variable coercion and argument coercion (C05; fields with arguments
+      are outside the executor model of C01), the cost rule (C14), Subscribe and asynchronous
+      resolvers (C02), the serialiser itself (encoding/json; [json_finite] is the condition under
+      which it accepts a number), stack depth of the Go runtime.  For these the glue theorems of
+      round 1 (…_partial below) and the hostile stream remain the evidence. *)
 From Coq Require Import List NArith.
-From ApiFu Require Import Pipe.PipelineModel Pipe.PipelineProofs.
+From ApiFu Require Import Base.Sexp.
+From ApiFu Require Syn.Ast Syn.ParserModel Syn.FrontEnd Vld.Ast Exe.ExecData Exe.ExecModel Exe.ExecSpec Exe.ExecHyps.
+From ApiFu Require Import Pipe.PipelineModel Pipe.PipelineProofs Pipe.Convert Pipe.Compose Pipe.PositionsProofs Pipe.ComposeProofs.
+Import ListNotations.
 
+(** ** the composed model, from bytes *)
+
+(** graphql.ParseAndValidate: for EVERY byte string, schema and feature set the outcome is syntax
+    errors, validation errors or the accepted document — never a panic, never fuel exhaustion
+    (C06_parse_document_bytes_never_panics + C04_validate_no_panic across [vld_of_syn]) *)
+Theorem C03_front_never_panics : forall VS F bs,
+  match parse_and_validate_bytes VS F bs with FPanic _ | FOutOfFuel _ => False | _ => True end.
+Proof. exact front_never_panics. Qed.
+
+(** ... and what each outcome means for the stages *)
+Theorem C03_front_cases : forall VS F bs,
+  (exists e es tree, parse_and_validate_bytes VS F bs = FSyntax e es /\
+                     Syn.FrontEnd.parse_document_bytes bs = Syn.ParserModel.Out tree (e :: es)) \/
+  (exists d e es, parse_and_validate_bytes VS F bs = FInvalid e es /\
+                  Syn.FrontEnd.parse_document_bytes bs = Syn.ParserModel.Out (Some d) [] /\
+                  validate_doc VS F d = Vld.Ast.Done (e :: es)) \/
+  (exists d, parse_and_validate_bytes VS F bs = FAccepted d /\
+             Syn.FrontEnd.parse_document_bytes bs = Syn.ParserModel.Out (Some d) [] /\
+             validate_doc VS F d = Vld.Ast.Done []).
+Proof. exact front_cases. Qed.
+
+(** graphql.Execute: no stage of the composed model panics or runs out of fuel, for every byte
+    string, operation name, variable verdict, world and schema *)
+Theorem C03_pipeline_never_panics : forall VS F ES bs opname VE W,
+  Exe.ExecHyps.type_names_okb ES = true ->
+  match pipeline_model VS F ES bs opname VE W with PPanic _ | POutOfFuel _ => False | _ => True end.
+Proof. exact pipeline_never_panics_cases. Qed.
+
+(** ... and when every @skip/@include condition has a boolean value the outcome is a response
+    (syntax errors / validation errors / data and execution errors / the variable-coercion error),
+    or the report that a stage contract does not hold *)
+Theorem C03_pipeline_total : forall VS F ES bs opname VE W,
+  Exe.ExecHyps.type_names_okb ES = true -> request_evaluable VS F bs opname VE ->
+  is_response (pipeline_model VS F ES bs opname VE W) = true \/
+  contract_broken (pipeline_model VS F ES bs opname VE W) = true.
+Proof. exact pipeline_total. Qed.
+
+(** the complete classification: a response with data or errors and serialisable data; a broken
+    contract; or conditions without boolean value *)
+Theorem C03_pipeline_cases : forall VS F ES bs opname VE W,
+  Exe.ExecHyps.type_names_okb ES = true ->
+  let r := pipeline_model VS F ES bs opname VE W in
+  (is_response r = true /\ data_or_errors_p r = true /\ serialisable_p r = true) \/
+  contract_broken r = true \/
+  (unevaluable r = true /\
+   exists d o E, VE = Some E /\ parse_and_validate_bytes VS F bs = FAccepted d /\
+                 Exe.ExecModel.get_operation (exe_of_syn d) opname = Exe.ExecModel.GOp o /\
+                 Exe.ExecHyps.dirs_evaluable (Exe.ExecData.doc_of (exe_of_syn d) o) E = false).
+Proof. exact pipeline_cases. Qed.
+
+(** every response's data has a JSON form: no NaN, no infinity anywhere in it (C01_exec_data_finite
+    through the composition) *)
+Theorem C03_response_serialisable : forall VS F ES bs opname VE W j errs,
+  Exe.ExecHyps.type_names_okb ES = true ->
+  pipeline_model VS F ES bs opname VE W = PExecuted (Some j) errs ->
+  Exe.ExecData.json_finite j = true.
+Proof. exact pipeline_serialisable. Qed.
+
+(** a response without data (syntax errors, validation errors, a refused operation or variable
+    value, a propagated null at the root) carries at least one error *)
+Theorem C03_data_or_errors : forall VS F ES bs opname VE W,
+  Exe.ExecHyps.type_names_okb ES = true ->
+  is_response (pipeline_model VS F ES bs opname VE W) = true ->
+  data_or_errors_p (pipeline_model VS F ES bs opname VE W) = true.
+Proof. exact pipeline_data_or_errors. Qed.
+
+(** the parser's half of C01's hypothesis [doc_positions_okb], for every byte string: whatever
+    operation of a parsed text is selected, its selection nodes and those of all fragment
+    definitions have pairwise distinct positions in the executor's encoding
+    (C06_parse_bytes_pos_injective across [exe_of_syn]) *)
+Theorem C03_parsed_positions_distinct : forall bs d es opname o,
+  Syn.FrontEnd.parse_document_bytes bs = Syn.ParserModel.Out (Some d) es ->
+  Exe.ExecModel.get_operation (exe_of_syn d) opname = Exe.ExecModel.GOp o ->
+  Exe.ExecHyps.nodup_posb
+    (map Exe.ExecData.sel_pos (Exe.ExecHyps.all_sels (Exe.ExecData.doc_of (exe_of_syn d) o))) = true.
+Proof. exact parsed_positions_distinct. Qed.
+
+(** ** the open obligation, and what follows from it.
+    [validate_establishes_doc_ok VS F ES] :=
+      forall bs d opname o E,
+        parse_and_validate_bytes VS F bs = FAccepted d ->
+        get_operation (exe_of_syn d) opname = GOp o ->
+        let D := doc_of (exe_of_syn d) o in
+        dirs_evaluable D E = true -> doc_ok ES D E (default_fuel D) (default_fuel D) = true
+    (for schemas [VS], [ES] that describe one schema).  NOT proved: it is C04's
+    [validate_ok_doc_ok]; the composed model checks its conclusion on every run instead.
+    [text_positions_small bs]: every selection of the parsed text starts below line 2^24 and
+    column 2^32 (a bound on the size of the request text). *)
+Theorem C03_validate_establishes_doc_ok_partial : forall VS F ES bs opname VE W,
+  Exe.ExecHyps.type_names_okb ES = true ->
+  validate_establishes_doc_ok VS F ES -> text_positions_small bs ->
+  request_evaluable VS F bs opname VE ->
+  is_response (pipeline_model VS F ES bs opname VE W) = true.
+Proof. exact pipeline_response_if_obligations. Qed.
+
+(** ** the glue of graphql.go over observed stage verdicts (round 1; still what covers Subscribe,
+    the cost rule, argument coercion and everything else outside the composed model) *)
 Theorem C03_execute_total_partial : forall p v e,
   no_crash p -> no_crash v -> no_crash e -> exists r, execute p v e = Resp r.
 Proof. exact execute_total. Qed.
@@ -37,6 +175,15 @@ Theorem C03_parse_errors_alone : forall n v e,
   execute (Returned (S n)) v e = Resp {| has_data := false; data_null := true; nerrors := S n |}.
 Proof. exact parse_errors_alone. Qed.
 
+Print Assumptions C03_front_never_panics.
+Print Assumptions C03_front_cases.
+Print Assumptions C03_pipeline_never_panics.
+Print Assumptions C03_pipeline_total.
+Print Assumptions C03_pipeline_cases.
+Print Assumptions C03_response_serialisable.
+Print Assumptions C03_data_or_errors.
+Print Assumptions C03_parsed_positions_distinct.
+Print Assumptions C03_validate_establishes_doc_ok_partial.
 Print Assumptions C03_execute_total_partial.
 Print Assumptions C03_execute_data_or_errors_partial.
 Print Assumptions C03_subscribe_total_partial.
